@@ -39,16 +39,78 @@ from .common import kw
 MUTATORS = {"append", "extend", "insert", "pop", "remove", "clear", "update", "setdefault", "add", "sort", "reverse"}
 
 
-def build_branches(ctx: Ctx) -> Dict[str, ast.If]:
+class Branch:
+    """The statements `_build` executes for one operation name."""
+
+    def __init__(self, body: List[ast.stmt]) -> None:
+        self.body = body
+        self.lineno = body[0].lineno if body else 0
+
+
+def _op_test(test: ast.expr, lit: str) -> Optional[bool]:
+    """Truth of a dispatch test when `op == lit`, None when it depends on something else."""
+    if isinstance(test, ast.UnaryOp) and isinstance(test.op, ast.Not):
+        v = _op_test(test.operand, lit)
+        return None if v is None else not v
+    if isinstance(test, ast.BoolOp):
+        vals = [_op_test(v, lit) for v in test.values]
+        if isinstance(test.op, ast.And):
+            if any(v is False for v in vals):
+                return False
+            return True if all(v is True for v in vals) else None
+        if any(v is True for v in vals):
+            return True
+        return False if all(v is False for v in vals) else None
+    if isinstance(test, ast.Compare) and len(test.ops) == 1 and isinstance(test.left, ast.Name) and test.left.id == "op":
+        c, o = test.comparators[0], test.ops[0]
+        if isinstance(o, (ast.Eq, ast.NotEq)) and isinstance(c, ast.Constant):
+            return (c.value == lit) == isinstance(o, ast.Eq)
+        if isinstance(o, (ast.In, ast.NotIn)) and isinstance(c, (ast.Tuple, ast.List, ast.Set)) and all(
+            isinstance(x, ast.Constant) for x in c.elts):
+            return (lit in [x.value for x in c.elts]) == isinstance(o, ast.In)  # type: ignore[attr-defined]
+    return None
+
+
+def build_branches(ctx: Ctx) -> Dict[str, Branch]:
+    """Abstract execution of the dispatch in `_build`, once per operation-name literal it mentions."""
     fn = ctx.repo.require_func("JSONPatch._build")
-    out: Dict[str, ast.If] = {}
+    lits: Set[str] = set()
     for node in ast.walk(fn.node):
-        if isinstance(node, ast.If) and isinstance(node.test, ast.Compare) and len(node.test.ops) == 1:
-            t = node.test
-            if isinstance(t.ops[0], ast.Eq) and isinstance(t.left, ast.Name) and t.left.id == "op":
-                c = t.comparators[0]
+        if isinstance(node, ast.Compare) and isinstance(node.left, ast.Name) and node.left.id == "op":
+            for c in ast.walk(node.comparators[0]):
                 if isinstance(c, ast.Constant) and isinstance(c.value, str):
-                    out[c.value] = node
+                    lits.add(c.value)
+    loops = [n for n in fn.node.body if isinstance(n, ast.For)]
+    if len(loops) != 1:
+        raise AnalysisError("JSONPatch._build is no longer one loop over the operations")
+
+    def walk(body: List[ast.stmt], lit: str, acc: List[ast.stmt]) -> bool:
+        for s in body:
+            if isinstance(s, ast.If):
+                v = _op_test(s.test, lit)
+                if v is None:
+                    acc.append(s)
+                    continue
+                if not walk(s.body if v else s.orelse, lit, acc):
+                    return False
+            elif isinstance(s, (ast.Raise, ast.Continue, ast.Return, ast.Break)):
+                if isinstance(s, ast.Raise):
+                    acc.append(s)
+                return False
+            elif isinstance(s, ast.Try) and any(isinstance(n, ast.Subscript) and isinstance(n.slice, ast.Constant)
+                                                 and n.slice.value == "op" for n in ast.walk(s)):
+                continue  # the statement that reads the `op` member itself
+            else:
+                acc.append(s)
+        return True
+
+    out: Dict[str, Branch] = {}
+    for lit in sorted(lits):
+        acc: List[ast.stmt] = []
+        walk(loops[0].body, lit, acc)
+        if any(isinstance(x, ast.Raise) for x in acc):
+            continue  # this literal is refused, it is not an operation
+        out[lit] = Branch(acc)
     return out
 
 
@@ -124,9 +186,15 @@ def r15_2(ctx: Ctx) -> RuleResult:
             if isinstance(n, ast.Assign) and isinstance(n.targets[0], ast.Name) and isinstance(n.value, ast.Call):
                 if callee_name(n.value) == "_ensure_pointer" and n.value.args and path_of(n.value.args[0]) in params:
                     derived[n.targets[0].id] = path_of(n.value.args[0])  # type: ignore[assignment]
+        def src_of(e: ast.expr) -> Optional[str]:
+            # a parameter, a local bound to one, or either routed through _ensure_pointer
+            if isinstance(e, ast.Call) and callee_name(e) == "_ensure_pointer" and len(e.args) == 1 and not e.keywords:
+                return src_of(e.args[0])
+            return derived.get(path_of(e) or "")
+
         ok = True
         for k in ctor.keywords:
-            src = derived.get(path_of(k.value) or "")
+            src = src_of(k.value)
             if src is None or (k.arg != src and not (k.arg == src.rstrip("_") or k.arg.rstrip("_") == src.rstrip("_"))):  # type: ignore[union-attr]
                 ok = False
                 rr.bad(b, ctor, f"builder `{name}` passes {short(k.value)} as `{k.arg}`: arguments must be the "
